@@ -308,6 +308,13 @@ fn dly() {{ let us = DELAY_US.load(SeqCst); if us > 0 {{ std::thread::sleep(std:
     {orig_ret}
 }}
 
+// CONTROL-BEGIN: the same user expressions in an ordinary function: if they are fine here, the
+// arm has no excuse not to compile with them
+fn control(a: i64, out: &mut i64) -> i64 {{
+{control_body}
+}}
+// CONTROL-END
+
 // the arm's own matcher is the template of a well-typed use
 fn make_fake() -> (FuncPtr, CallCountVerifier) {{
     injectorpp::fake!({invocation})
@@ -423,7 +430,18 @@ def render_arm(idx, arm, invocation, opts):
         after = "unsafe { " + after + " }"
     after_expr = "{ " + after + "; 0i64 }" if unit else after
     other = {"": 'unsafe extern "C"', "unsafe": 'unsafe extern "C"', 'unsafe extern "C"': 'unsafe extern "system"', 'unsafe extern "system"': 'unsafe extern "C"'}.get(quals, 'unsafe extern "C"')
-    return ARM_TEMPLATE.format(idx=idx, line=arm["line"], quals=quals, other_quals=other, ret_decl=ret_decl, orig_ret="" if unit else "std::hint::black_box(-7)", invocation=invocation, param_tys=PARAM_TYS, call_expr=call_expr, after_expr=after_expr)
+    cb = []
+    if opts["when"]:
+        cb.append("    let _c: bool = { dly(); COND_EVALS.fetch_add(1, SeqCst); a >= WHEN_MIN.load(SeqCst) };")
+    if opts["times"]:
+        cb.append("    let _t: usize = TIMES.load(SeqCst);")
+    if opts["assign"]:
+        cb.append("    { dly(); ASSIGN_SEQ.store(tick(), SeqCst); ASSIGN_EVALS.fetch_add(1, SeqCst); *out = a + ASSIGN_K.load(SeqCst); let a = a.wrapping_add(777_000); let _ = a; }")
+    if opts["returns"]:
+        cb.append("    { dly(); RET_SEQ.store(tick(), SeqCst); RET_EVALS.fetch_add(1, SeqCst); a * 2 + RET_K.load(SeqCst) + (*out ^ *out) }")
+    else:
+        cb.append("    let _ = (a, &out); 0")
+    return ARM_TEMPLATE.format(control_body="\n".join(cb), idx=idx, line=arm["line"], quals=quals, other_quals=other, ret_decl=ret_decl, orig_ret="" if unit else "std::hint::black_box(-7)", invocation=invocation, param_tys=PARAM_TYS, call_expr=call_expr, after_expr=after_expr)
 
 
 # --------------------------------------------------------------------------------------------
@@ -470,7 +488,8 @@ def build_crate(name, bins):
                 while e:
                     in_macro.append(e.get("macro_decl_name", ""))
                     e = e["span"].get("expansion") if e.get("span") else None
-            entry = {"message": msg.get("message", ""), "macros": in_macro, "rendered": (msg.get("rendered") or "")[:1500]}
+            lines = [sp.get("line_start") for sp in msg.get("spans", []) if sp.get("is_primary")] or [sp.get("line_start") for sp in msg.get("spans", [])]
+            entry = {"message": msg.get("message", ""), "macros": in_macro, "rendered": (msg.get("rendered") or "")[:1500], "lines": [l for l in lines if l]}
             if tname in res:
                 res[tname]["errors"].append(entry)
             else:
@@ -705,6 +724,17 @@ def cmd_c08(out_path, prop="C08"):
         if not res[name]["ok"]:
             errs = res[name]["errors"]
             in_fake = [e for e in errs if any("fake" in mm for mm in e["macros"])]
+            if not in_fake and errs:
+                # the same expressions compile in the ordinary `control` function of this very
+                # file (no error is located there): what does not compile is the arm's use of them
+                src_lines = bins[name].split("\n")
+                lo = next((k + 1 for k, l in enumerate(src_lines) if l.startswith("// CONTROL-BEGIN")), None)
+                hi = next((k + 1 for k, l in enumerate(src_lines) if l.startswith("// CONTROL-END")), None)
+                inv = next((k + 1 for k, l in enumerate(src_lines) if "injectorpp::fake!(" in l), None)
+                in_control = [e for e in errs if any(lo and hi and lo <= ln <= hi for ln in e.get("lines", []))]
+                at_invocation = [e for e in errs if any(inv and ln == inv for ln in e.get("lines", []))]
+                if not in_control and at_invocation:
+                    in_fake = at_invocation
             rec.eval(lambda: {"arm": m["idx"], "line": m["line"], "options": label, "outcome": "does not compile"})
             if in_fake or errs:
                 e = (in_fake or errs)[0]
